@@ -242,9 +242,6 @@ class LoopMixin:
                 sv = specval(v, st, self)
             except Unsupported:
                 continue
-            if isinstance(sv, Ref) and isinstance(st.deref(sv), ObjV):
-                o = st.deref(sv)
-                sv = NS({f: specval(x, st, self) for f, x in o.fields.items()})
             d[nm] = sv
         d["k"] = k
         d.update(ghosts)
